@@ -34,6 +34,8 @@ struct Value {
   const std::string &str() const { return s; }
   size_t size() const { return kind == Arr ? a.size() : o.size(); }
   const Value &operator[](size_t k) const { return a.at(k); }
+  const Value &operator[](int k) const { return a.at(k); }
+  const Value &operator[](long k) const { return a.at(k); }
   bool has(const std::string &k) const {
     for (auto &p : o)
       if (p.first == k) return true;
